@@ -5,6 +5,8 @@ import (
 	"math"
 	"strings"
 
+	"google.golang.org/protobuf/encoding/protowire"
+	"google.golang.org/protobuf/proto"
 	"google.golang.org/protobuf/reflect/protoreflect"
 	"google.golang.org/protobuf/types/dynamicpb"
 )
@@ -187,6 +189,27 @@ func fieldSetters(fd protoreflect.FieldDescriptor, depth int, thorough bool) []s
 		}
 		if len(keys) > 2 {
 			put("map-two-entries", false, keys[1], vals[min(1, len(vals)-1)], keys[2], vals[0])
+		}
+		// string keys: an entry whose encoded length is exactly 127 and 128 bytes (1-byte / 2-byte entry header)
+		if kd.Kind() == protoreflect.StringKind {
+			v1 := vals[min(1, len(vals)-1)]
+			for _, target := range []int{127, 128} {
+				for L := 90; L <= 127; L++ {
+					probe := dynamicpb.NewMessage(fd.ContainingMessage())
+					probe.Mutable(fd).Map().Set(protoreflect.ValueOfString(strOf(L)).MapKey(), cloneValue(vd, v1.v))
+					b, err := proto.MarshalOptions{AllowPartial: true}.Marshal(probe)
+					if err != nil {
+						break
+					}
+					// field = key || varint(entryLen) || entry
+					hdr := protowire.SizeTag(fd.Number())
+					_, n := protowire.ConsumeVarint(b[hdr:])
+					if len(b)-hdr-n == target {
+						put(fmt.Sprintf("map-entry-size-%d", target), false, nv{fmt.Sprintf("len%d", L), protoreflect.ValueOfString(strOf(L))}, v1)
+						break
+					}
+				}
+			}
 		}
 	case fd.IsList():
 		dom := elemDomain(fd, depth, thorough)
